@@ -1,9 +1,9 @@
 CONSTANTS
-  Streams = {1, 2, 3}
+  Streams = {1, 2}
   MaxSub = 2
   MaxBuf = 1
   Block = TRUE
-  DataPer = 1
+  DataPer = 3
   GeLimit = TRUE
   DropClears = TRUE
   ResetKeeps = TRUE
